@@ -1,11 +1,13 @@
 package condition
 
 import (
+	"strings"
 	"sync"
 
 	"github.com/expr-lang/expr"
 	"github.com/expr-lang/expr/ast"
 	"github.com/expr-lang/expr/vm"
+	"github.com/expr-lang/expr/vm/runtime"
 )
 
 // SQL three-valued logic for predicates whose evaluation fails.
@@ -18,6 +20,80 @@ import (
 // same expression in which <, <=, > and >= are calls that return false instead
 // of failing. Rows on which the normal program succeeds never take this path,
 // so their decisions are unchanged.
+
+// sqlEqualityFuncs: in SQL `x = y` and `x != y` are not true when an operand is
+// NULL, whereas expr-lang's nil != 5 is true and nil == nil is true. Equality
+// comparisons are therefore always compiled as calls that check for NULL first;
+// a comparison written against the nil literal itself (how IS [NOT] NULL is
+// lowered: `x == nil`) keeps expr-lang's meaning.
+var sqlEqualityFuncs = map[string]string{
+	"==": "__sql_eq",
+	"!=": "__sql_ne",
+}
+
+type sqlEqualityPatcher struct{}
+
+func (sqlEqualityPatcher) Visit(node *ast.Node) {
+	bn, ok := (*node).(*ast.BinaryNode)
+	if !ok {
+		return
+	}
+	fn, ok := sqlEqualityFuncs[bn.Operator]
+	if !ok {
+		return
+	}
+	if isNullLiteral(bn.Left) || isNullLiteral(bn.Right) {
+		return
+	}
+	ast.Patch(node, &ast.CallNode{
+		Callee:    &ast.IdentifierNode{Value: fn},
+		Arguments: []ast.Node{bn.Left, bn.Right},
+	})
+}
+
+// isNullLiteral reports whether n is the nil literal or the bare word null
+// (`x = null` is accepted as a spelling of IS NULL; null is an undefined
+// variable for expr-lang and evaluates to nil).
+func isNullLiteral(n ast.Node) bool {
+	switch x := n.(type) {
+	case *ast.NilNode:
+		return true
+	case *ast.IdentifierNode:
+		return strings.EqualFold(x.Value, "null") || x.Value == "nil"
+	}
+	return false
+}
+
+// sqlEqualityOptions returns the compile options implementing SQL equality.
+func sqlEqualityOptions() []expr.Option {
+	eq := func(params ...any) (res any, err error) {
+		if len(params) != 2 || isNilValue(params[0]) || isNilValue(params[1]) {
+			return false, nil
+		}
+		defer func() {
+			if r := recover(); r != nil {
+				res, err = false, nil // incomparable operands are not equal
+			}
+		}()
+		return runtime.Equal(params[0], params[1]), nil
+	}
+	ne := func(params ...any) (res any, err error) {
+		if len(params) != 2 || isNilValue(params[0]) || isNilValue(params[1]) {
+			return false, nil
+		}
+		defer func() {
+			if r := recover(); r != nil {
+				res, err = true, nil
+			}
+		}()
+		return !runtime.Equal(params[0], params[1]), nil
+	}
+	return []expr.Option{
+		expr.Function("__sql_eq", eq, new(func(any, any) bool)),
+		expr.Function("__sql_ne", ne, new(func(any, any) bool)),
+		expr.Patch(sqlEqualityPatcher{}),
+	}
+}
 
 var nullSafeComparisonFuncs = map[string]string{
 	"<":  "__null_safe_lt",
